@@ -10,3 +10,15 @@ chk('C17', 'exploration',
     'with a list-of-lists model. Held on the executions produced; the grid and history bounds are the limit of the claim.',
     'Trusted: the constructive path generator, hand_parse() and the list model in checks/c17.py.',
     'reference-model monitor (constructive grid + model-based set/get histories)', 'DESIGN.md 5 C17')
+chk('C14', 'exploration',
+    'Every syntax note of every shipped map x all presence patterns x all segment lengths is evaluated at run time by the real is_syntax_valid and by the X12 '
+    'definition, and routed through the real segment validation with and without the notes to isolate the error codes they cause. The domain is finite and '
+    'fully enumerated (exhaustive: true).',
+    'Trusted: ref_ok() in checks/c14.py as the X12 definition; independent note parse from the XML; the baseline-subtraction trick assumes non-syntax checks do not depend on node.syntax.',
+    'reference-model monitor, exhaustive enumeration over shipped maps', 'DESIGN.md 5 C14')
+chk('C04', 'exploration',
+    'The real X12Reader is iterated over tens of thousands of generated and mutated envelope sequences with pop_errors() sampled after every segment and after cleanup(); '
+    'an independent recount decides proper nesting and the exact expected (segment, level, code) multiset; equality both ways gives "exactly when". '
+    'Held on the sequences produced; every envelope code must have been expected at least once or the run is inconclusive.',
+    'Trusted: vlib/ref_envelope.recount; don\'t-care classes listed in the evidence assumptions.',
+    'reference-model monitor on generated + mutated envelope sequences', 'DESIGN.md 5 C04')
